@@ -312,6 +312,58 @@ def result_tests(f, call):
     return out
 
 
+ITER_OK = {"into_iter", "enumerate", "inspect", "peekable", "by_ref", "fuse"}
+PANICS = re.compile(r"core::panicking::|std::rt::begin_panic|::unwrap_failed$|::expect_failed$")
+
+
+def failure_edge_ok(f, brk, rdefs, succ=()):
+    """A failure edge must end in an `Err` return, a non-zero process::exit or a panic - never in success."""
+    rb = f.reachable(brk)
+    if set(succ) & rb:
+        return False, "success exit reachable"
+    kinds = {k for bb, k in rdefs if bb in rb}
+    if set(f.returns()) & rb:
+        return bool(kinds) and kinds <= {"residual", "Err"}, f"return values on the failure edge: {sorted(kinds)}"
+    for c in f.calls():
+        if c.bb in rb and c.target < 0:
+            if c.matches("process::exit"):
+                o = f.origin(c.args[0])
+                if not (o.get("kind") == "const" and o.get("v") not in (0, None)):
+                    return False, "process::exit with a zero / unknown status"
+            elif not c.matches(PANICS):
+                return False, f"diverges through {short(mir.norm(c.callee))}"
+    return True, "diverges"
+
+
+def propagation_rule(rep, B, holder):
+    """The Result of the function holding the check logic must become main's own Result (or a non-zero exit / panic)."""
+    main = B.c.fn("main")
+
+    def up(f, depth):
+        if f is main:
+            rep.ob("R33.2", "main returns a Result (an Err becomes a non-zero exit status)", "Result<" in f.locals[0],
+                   f.locals[0], f.loc())
+            return
+        sites = B.call_sites(f)
+        rep.ob("R33.2", f"{short(f.npath)} (check logic) is called from the CLI crate", bool(sites) and depth > 0, "", f.loc())
+        if depth <= 0:
+            return
+        for g, c in sites:
+            gn = short(g.npath)
+            if not c.dest.get("p") and c.dest["l"] == 0:
+                up(g, depth - 1)        # returned as is
+                continue
+            tests = result_tests(g, c)
+            rd = ret_defs(g)
+            oks = [failure_edge_ok(g, brk, rd) for _, brk, _ in tests]
+            rep.ob("R33.2", f"{gn}: an Err of {short(f.npath)} is propagated (returned, non-zero exit or panic)",
+                   bool(tests) and all(o for o, _ in oks), "; ".join(w for _, w in oks) or "the Result is not tested",
+                   g.loc(c.bb))
+            if not tests or any(w != "diverges" for _, w in oks):
+                up(g, depth - 1)
+    up(holder, 4)
+
+
 class Ctx:
     """Where the read + comparison live: the function holding the check switch itself, or a helper of the CLI crate
     called from the check = true region.  `succ` are the blocks that mean `this file is fine, go on`: the loop header
@@ -346,9 +398,10 @@ def check_region_rules(rep, B):
         rep.floor("R33.1", "file-writing sites under main (direct or through a CLI-crate helper)", len(sites), 1)
         rep.floor("R33.1", "file-writing std calls in the CLI crate (create_dir_all, write)",
                   sum(1 for f in c.fns.values() for cc in f.calls() if write_api(cc)), 2)
+        open_sites = {bb for bb, _ in B.unguarded(main)}
         for b, what, _ in sites:
             rep.ob("R33.1", f"main: {what} is reached only through the `check == false` edge",
-                   B.check_guarded(main, b), "a path with check = true reaches a file-mutating call", main.loc(b))
+                   b not in open_sites, "a path with check = true reaches a file-mutating call", main.loc(b))
         # trait methods (Drop, Display, clap derives ...) are called from code the analysis does not see
         bad = [(f, B.unguarded(f)) for f in c.fns.values() if f.d.get("trait") is not None]
         bad = [(f, u) for f, u in bad if u]
@@ -399,6 +452,19 @@ def region_rules(rep, B, f, sw, neg):
     it = [c for c in f.calls("Files::iter")]
     rep.ob("R33.2", f"{fn}: the loop walks Files::iter", bool(it) and all(
         any(f.dominates(c.bb, h) for c in it) for h in H), "", f.loc(sw))
+
+    # ... directly: an adaptor such as skip / take / filter / step_by would leave files unchecked
+    for h in H:
+        hc = mir.Call(h, f.term(h))
+        via = [x for x, _ in chain(f, hc.args[0])[0]] if hc.args else []
+        names = [mir.norm(x.callee).split("::")[-1] for x in via]
+        upto = names[:names.index("iter")] if "iter" in names else names
+        rep.ob("R33.2", f"{fn}: the loop visits every entry of Files::iter (no skipping adaptor)",
+               "iter" in names and via[names.index("iter")].matches("Files::iter") and
+               all(n in ITER_OK for n in upto), f"iterator built through: {names}", f.loc(h))
+
+    # the verdict of the holder reaches the process exit status
+    rep.guard("R33.2", f"verdict of {fn} reaches main", lambda: propagation_rule(rep, B, f))
 
     # (a') the check region leaves only by continuing the loop or by an error return
     rep.ob("R33.1", f"{fn}: check = true never completes successfully except through the loop header",
@@ -898,15 +964,18 @@ def who_may_write(rep, B):
     # ---- calls from the CLI into workspace crates that are not analysed (the `test` subcommand) stay outside the generator flow
     def outside():
         analysed = set(GEN)
+        iter_fns = {f.path for f in B.c.fns.values() if f.calls("Files::iter")}
         n = 0
-        for c in main.calls():
-            s = segs(mir.norm(c.callee))
-            if s[0].startswith("wit_bindgen") and s[0] not in analysed and not s[0].startswith("<"):
-                n += 1
-                it = main.call_blocks("Files::iter")
-                rep.ob("R33.6", f"main: call into unanalysed crate {s[0]} cannot reach the file loop",
-                       not (set(it) & main.reachable(c.bb)), "", main.loc(c.bb))
-        rep.floor("R33.6", "calls from main into wit_bindgen_test (test subcommand)", n, 1)
+        for f in B.c.fns.values():
+            flow = set(f.call_blocks("Files::iter")) | {b for b, g in B.local_refs(f) if g.path in iter_fns}
+            for c in f.calls():
+                sg = segs(mir.norm(c.callee))
+                if sg[0].startswith("wit_bindgen") and sg[0] not in analysed and not sg[0].startswith("<") and \
+                        f.d.get("trait") is None:
+                    n += 1
+                    rep.ob("R33.6", f"{short(f.npath)}: call into unanalysed crate {sg[0]} cannot reach the file loop",
+                           not (flow & f.reachable(c.bb)), "", f.loc(c.bb))
+        rep.floor("R33.6", "calls from the CLI into wit_bindgen_test (test subcommand)", n, 1)
     rep.guard("R33.6", "outside", outside)
 
 
